@@ -52,7 +52,11 @@ class Site:
     opens:   Lean `open` line needed by the generated definitions
     """
     def __init__(self, file, qual, name, params, vars, consts=None, imports=(), opens='',
-                 locals_inline=True, want=None):
+                 locals_inline=True, want=None, str_as_bytes=False, calls=(), list_calls=None, const_types=None):
+        self.str_as_bytes = str_as_bytes
+        self.calls = set(calls)            # callee source texts whose argument expressions are extracted (<site>_c<k>_<i>)
+        self.list_calls = list_calls or {}
+        self.const_types = const_types or {}   # first dotted component of a consts key -> type  # callee text -> Lean element type: all arguments as one list (<site>_c<k>)
         self.file, self.qual, self.name, self.params = file, qual, name, params
         self.vars, self.consts = vars, consts or {}
         self.imports, self.opens = imports, opens
@@ -98,6 +102,8 @@ class Tr:
         s = ast.unparse(e)
         if s in self.site.vars:
             return self.site.vars[s][1]
+        if s in self.site.consts:
+            return self.site.const_types.get(s.split('.')[0], 'other')
         if isinstance(e, ast.Name) and e.id in self.locals:
             return self.typ(self.locals[e.id])
         if isinstance(e, ast.Constant):
@@ -113,6 +119,8 @@ class Tr:
         if isinstance(e, ast.Call) and isinstance(e.func, ast.Name) and e.func.id in ('len', 'abs', 'int', 'min', 'max'):
             return 'int'
         if isinstance(e, ast.Subscript): return self.typ(e.value)
+        if isinstance(e, ast.Call) and isinstance(e.func, ast.Attribute) and e.func.attr == 'startswith':
+            return 'bool'
         return 'other'
 
     def coerce(self, e, want_time):
@@ -157,6 +165,8 @@ class Tr:
             v = e.value
             if isinstance(v, bool): return 'true' if v else 'false'
             if isinstance(v, int): return '(%d : Int)' % v
+            if isinstance(v, str) and not self.site.str_as_bytes:
+                raise Untranslatable('text constant')
             if isinstance(v, (bytes, str)):
                 b = v if isinstance(v, bytes) else v.encode()
                 return '([' + ', '.join(str(x) for x in b) + '] : List UInt8)'
@@ -168,6 +178,8 @@ class Tr:
                 tm = 'time' in (self.typ(e.left), self.typ(e.right)) and not isinstance(e.op, ast.Mult)
                 return '(%s %s %s)' % (self.coerce(e.left, tm), ARITH[type(e.op)], self.coerce(e.right, tm))
             if isinstance(e.op, ast.Mod):
+                if self.typ(e.left) != 'int' or self.typ(e.right) != 'int':
+                    raise Untranslatable('% on non-integers')
                 return '(Int.emod %s %s)' % (self.expr(e.left), self.expr(e.right))
             if isinstance(e.op, ast.FloorDiv):
                 return '(Int.ediv %s %s)' % (self.expr(e.left), self.expr(e.right))
@@ -195,6 +207,10 @@ class Tr:
                 return self.expr(e.args[0])
             if f in ('min', 'max') and len(e.args) == 2:
                 return '(%s %s %s)' % (f, self.expr(e.args[0]), self.expr(e.args[1]))
+        if (isinstance(e, ast.Call) and isinstance(e.func, ast.Attribute) and e.func.attr == 'startswith'
+                and len(e.args) == 1 and self.typ(e.func.value) == 'bytes'):
+            # bytes.startswith(prefix)
+            return '(List.isPrefixOf %s %s)' % (self.expr(e.args[0]), self.expr(e.func.value))
         if isinstance(e, ast.Subscript) and isinstance(e.slice, ast.Slice) and e.slice.step is None:
             v = self.expr(e.value)
             lo, hi = e.slice.lower, e.slice.upper
@@ -244,13 +260,25 @@ def site_defs(site):
     src = open(os.path.join(REPO, site.file)).read()
     tree = ast.parse(src)
     func = find_func(tree, site.qual)
-    tr = Tr(site, func)
+    tr = getattr(site, 'tr_class', Tr)(site, func)   # a site may bring a Tr subclass (extra expression forms)
     out = []
     skel = []
     entries = []   # (kind 'g'|'a', expr node, lineno, truth?) in source order
+    def calls_in(st):
+        v = getattr(st, 'value', None)
+        if v is None or not (site.calls or site.list_calls):
+            return
+        for n in ast.walk(v):
+            if isinstance(n, ast.Call):
+                f = ast.unparse(n.func)
+                if f in site.calls or f in site.list_calls:
+                    entries.append(('c', n, st.lineno))
+
     # source order walk
     def visit(stmts, depth):
         for st in stmts:
+            if isinstance(st, (ast.Expr, ast.Return, ast.Assign)):
+                calls_in(st)
             if isinstance(st, (ast.If, ast.While)):
                 entries.append(('g', st.test, st.lineno))
                 skel.append('%s%s' % ('  ' * depth, type(st).__name__))
@@ -313,12 +341,9 @@ def site_defs(site):
     idents = [None] * len(entries)
     base = BASELINE.get(site.name)
     if base is None or REBASELINE:
-        gk = ak = 0
+        cnt = {'g': 0, 'a': 0, 'c': 0}
         for i, (k, e, _) in enumerate(entries):
-            if k == 'g':
-                idents[i] = '%s_g%d' % (site.name, gk); gk += 1
-            else:
-                idents[i] = '%s_a%d' % (site.name, ak); ak += 1
+            idents[i] = '%s_%s%d' % (site.name, k, cnt[k]); cnt[k] += 1
     else:
         import difflib
         bt = [t for _, t in base]
@@ -334,6 +359,20 @@ def site_defs(site):
                 idents[i] = '%s_new%d' % (site.name, fresh); fresh += 1
     NEWBASE[site.name] = [[idents[i], texts[i]] for i in range(len(entries))]
     for i, (k, e, ln) in enumerate(entries):
+        if k == 'c':
+            f = ast.unparse(e.func)
+            srctext = ast.unparse(e).replace('\n', ' ')
+            try:
+                if f in site.list_calls:
+                    out.append('-- %s:%d  %s\ndef %s %s : List %s := [%s]' % (
+                        site.qual, ln, srctext, idents[i], site.params, site.list_calls[f],
+                        ', '.join(tr.expr(a) for a in e.args)))
+                else:
+                    for j, a in enumerate(list(e.args) + [k.value for k in e.keywords]):
+                        emit('%s_%d' % (idents[i], j), a, None, ln)
+            except Untranslatable as ex:
+                out.append('-- %s  %s:%d  UNTRANSLATED (%s)  %s' % (idents[i], site.qual, ln, ex, srctext))
+            continue
         emit(idents[i], e, 'Bool' if k == 'g' else None, ln, truth=(k == 'g'))
     fp = hashlib.sha1('\n'.join(skel).encode()).hexdigest()[:16]
     return out, fp
